@@ -7,6 +7,7 @@ use crate::funcs;
 use crate::gen::*;
 use crate::rng::Rng;
 use crate::run::*;
+use crate::world::{ErrKind, Fault, FilePlan};
 
 pub struct C18;
 
@@ -80,12 +81,12 @@ impl Property for C18 {
         "exploration"
     }
     fn rule(&self) -> &'static str {
-        "A scenario = a valid configuration from the swarm grammar (verified: the same world runs Ok) plus exactly one corruption that is invalid by construction: final ')' of a call dropped, unmatched '(' added, unknown function name, arity min-1 / max+1 from the scraped function table, trailing garbage after a complete expression, sort direction other than ASC/DESC, --set without '=', with an empty name or duplicated, JSON-only options with csv/text, text-only options with json/csv, csv without --select, csv or --headers with --group-by/--merge; in every option position and output style. World: a stdin factory that would deliver a non-empty stream; in half of the scenarios hostile stubs (every read and write fails). Oracle: go returns Err and the recorded seam history of the run is empty (stdin factory not called, no read, no write on either sink). evaluations = jawk executions; non-trivial = the corrupted configuration was executed (all scenarios that pass the validity pre-check); distinct = distinct (corruption kind, option position, output style, hostile?) combinations hashed into the abstract trace."
+        "A scenario = a valid configuration from the swarm grammar (verified: the same world runs Ok) plus exactly one corruption that is invalid by construction: final ')' of a call dropped, unmatched '(' added, unknown function name, arity min-1 / max+1 from the scraped function table, trailing garbage after a complete expression (also one stray character glued to a call), an expression cut to length zero, sort direction other than ASC/DESC, --set without '=', with an empty name, duplicated, or duplicated with a same-named definition of the other kind in between, JSON-only options with csv/text, text-only options with json/csv, csv without --select, csv or --headers with --group-by/--merge; in every option position and output style. World: a non-empty input waiting on stdin or, in a third of the scenarios, in two file arguments behind the opener seam (hook H2); in half of the scenarios hostile stubs (every read and write fails, opening the second file fails). Oracle: go returns Err and the recorded seam history of the run is empty (stdin factory not called, no file opened, no read, no write on either sink). evaluations = jawk executions; non-trivial = the corrupted configuration was executed (all scenarios that pass the validity pre-check); distinct = distinct (corruption kind, option position, output style, hostile?) combinations hashed into the abstract trace."
     }
     fn assumptions(&self) -> Vec<String> {
         vec![
             "arguments that clap itself rejects never reach go; they are exercised at the process level under C20".into(),
-            "files named on the command line are not observable in-process and are not part of this check".into(),
+            "file arguments are observed through hook H2 (the opener of input files); the existence test jawk performs on a path (stat) is not an event".into(),
             "each corruption is invalid by construction (and observed to be rejected by the pinned tree)".into(),
         ]
     }
@@ -125,6 +126,9 @@ impl Property for C18 {
             case.opts.push(policy_opt(*rng.pick(&[Policy::Panic, Policy::Stderr, Policy::Stdout])));
         }
         case.set("hostile", i64::from(rng.chance(1, 2)));
+        // the non-empty input waits on stdin or in 1..2 file arguments (hook H2: opening or
+        // reading them would show in the event history)
+        case.set("on_files", i64::from(rng.chance(1, 3)));
         let base = serde_json::to_string(&case.opts).unwrap();
         case.strs.insert("base_opts".into(), base);
         let mut needs: Vec<String> = Vec::new();
@@ -133,7 +137,7 @@ impl Property for C18 {
         let exprs = expr_options(&case.opts);
         let kind: &str;
         // choose a corruption; fall back to one that is always possible
-        let choice = rng.below(16);
+        let choice = rng.below(19);
         let fresh_position = |rng: &mut Rng, expr: &str| -> Vec<String> {
             match rng.below(6) {
                 0 => vec![format!("--filter={expr}")],
@@ -242,6 +246,37 @@ impl Property for C18 {
                 needs.push(o.last().unwrap().clone());
                 case.opts[i] = o;
                 kind = "glued-garbage";
+            }
+            16 if !exprs.is_empty() => {
+                // truncation to nothing: the expression is cut to length zero
+                let i = *rng.pick(&exprs);
+                let (p, _e, s) = split_expr(&case.opts[i]);
+                let o = join_expr(&case.opts[i], &p, "", &s);
+                needs.push(o.last().unwrap().clone());
+                case.opts[i] = o;
+                kind = "emptied-expression";
+            }
+            17 => {
+                let o = fresh_position(rng, "");
+                needs.push(o.last().unwrap().clone());
+                replace_or_add(&mut case, o);
+                kind = "emptied-expression";
+            }
+            18 => {
+                // a duplicate --set whose two copies are separated by a definition of the
+                // other kind with the same name (x, @x, x  or  @x, x, @x)
+                let name = format!("idup{}", rng.below(10));
+                let (a, m) = (format!("{name}=1"), format!("@{name}=(+ . 1)"));
+                let seq: Vec<String> = if rng.chance(1, 2) {
+                    vec![a.clone(), m.clone(), format!("{name}=2")]
+                } else {
+                    vec![m.clone(), a.clone(), format!("@{name}=(- . 1)")]
+                };
+                for v in &seq {
+                    case.opts.push(vec!["--set".into(), v.clone()]);
+                    needs.push(v.clone());
+                }
+                kind = "interleaved-duplicate-set";
             }
             6 => {
                 let o = vec![format!("--sort-by=.n={}", rng.pick(&["UP", "DOWN", "descending", "A SC", "1"]))];
@@ -405,7 +440,21 @@ impl Property for C18 {
                 return None;
             }
         }
-        let mut spec = case_spec(case, &input);
+        let on_files = case.param("on_files") == 1;
+        let mut spec = if on_files {
+            let half = input.len() / 2;
+            let datas = vec![input[..half].to_vec(), input[half..].to_vec()];
+            let paths = ctx.fresh_paths(2);
+            ctx.stats.probe("input waits in file arguments");
+            let mut plans = vec![FilePlan::default(), FilePlan::default()];
+            if hostile {
+                plans[0].fault = Some(Fault { at: 0, kind: ErrKind::Other, sticky: true });
+                plans[1].open_fails = Some(ErrKind::PermissionDenied);
+            }
+            sim_files_spec(case, &paths, &datas, &plans)
+        } else {
+            case_spec(case, &input)
+        };
         spec.delivery.whole = false;
         if hostile {
             spec.hostile_stdin = true;
